@@ -89,7 +89,20 @@ PROPS["C03"] = {
     "partial": "termination under fairness (stage_progress) is checked by exploration only",
 }
 
+PROPS["C10"] = {
+    "gen": ["PIO"],
+    "trusted_base": ["SoftFileLock gives mutual exclusion per lock path (atomic exclusive create) and is released on exit; tile writes are not atomic (modelled as begin/end) — simmp implements exactly this",
+                     "real file-system behaviour under concurrent processes is only sampled (stress run)"],
+    "assumptions": COMMON_ASSUME + ["updaters do not crash inside the locked region (a SoftFileLock marker left by a crash is outside the property)"],
+    "partial": "OS file semantics",
+}
+
 LEVEL_TEXT = {
+    "C10": {
+        "text": "The shape of update_image (lock wraps read → yield → write and nothing else; lock path from the default-format tile path; one format for read and write) is re-extracted each run. A transition system with one transition per lock/read/write step is proved, for any number of updaters and every interleaving, to keep an 8-clause invariant; corollaries: when all updaters are done the tile is stable and holds every contribution exactly once in lock-acquisition order (serialisability), no read ever observes a partially written tile, at most one updater is inside the region. The real update_image runs under a deterministic scheduler (random and bounded-exhaustive schedules, 2-4 updaters) with traced reads/writes; traces are replayed through the Lean model and the final tile content is checked; a real-process stress run.",
+        "note": "trusted: Lean kernel; the lock/file semantics of DESIGN.md §3; simmp; fact extraction.",
+        "technique": "Lean 4 proof (inductive invariant over all interleavings) + trace refinement checked by execution",
+    },
     "C03": {
         "text": "The producer statement order, queue capacities and the workers' shutdown test are re-extracted from the four stage implementations each run. A transition system with one transition per multiprocessing primitive models producer, feeder and n workers; a 14-clause invariant is proved inductive for every number of workers, capacity, item list and interleaving (time-outs firing whenever a receive is impossible). Corollaries: no item is processed more often than produced (exactly-one worker for distinct items); when the producer has returned all workers have exited, queue and buffers are empty and the processed items are a permutation of the produced ones. The original step order (flag read after an empty poll) is refuted by an 11-step witness. The real visit_leaves / transform / multi_tan / multi_wcs run under a deterministic scheduler (random, biased, and bounded-exhaustive schedules) and every trace is replayed through the Lean transition function; real-process smoke runs.",
         "note": "trusted: Lean kernel; the multiprocessing semantics stated in DESIGN.md; simmp; fact extraction from the stage sources.",
